@@ -1,7 +1,10 @@
 package main
 
 import (
+	"bytes"
 	"fmt"
+
+	"github.com/cocosip/go-dicom-codecs/jpeg/lossless"
 
 	"verifharness/internal/hx"
 )
@@ -58,6 +61,7 @@ func c02Cut(s []byte) (bits [16]int, vals []byte, pred int, scan []byte, ok bool
 // difference, categories, bit writer/reader, canonical codes composed) against the real
 // Encode / Decode: same entropy-coded bytes, same decoded pixels.
 func c02Streams(c *hx.Ctx) {
+	c02WholeStreams(c)
 	n := 260
 	if c.Thorough() {
 		n = 4000
@@ -137,6 +141,128 @@ func c02Streams(c *hx.Ctx) {
 			c.Count("scan-dec:damaged:" + real[:2])
 		} else {
 			c.Count("scan-dec:intact")
+		}
+	}
+}
+
+
+// c02WholeStreams: byte-exact whole-stream correspondence of the stream model (Model/JpegLosslessStream.lean)
+// with lossless.Encode/Decode and lossless14sv1.Encode/Decode: own streams, argument errors, foreign
+// reference streams (per-component tables, Td 0..3, APPn/COM, DHT placement) and damaged streams.
+func c02WholeStreams(c *hx.Ctx) {
+	decLine := func(sv1 bool, stream []byte) {
+		dec, od := c02Decode(sv1, stream)
+		real := "err"
+		if od == "ok" {
+			real = fmt.Sprintf("ok %d %d %d %d %s", dec.W, dec.H, dec.NC, dec.P, hx.Hex(dec.Pix))
+		} else if od[:3] == "pan" {
+			real = "panic"
+		}
+		op := "jll-stream-dec "
+		if sv1 {
+			op = "sv1-stream-dec "
+		}
+		c.Case(op+hx.Hex(stream), real)
+		c.Count("stream-dec:" + real[:2])
+	}
+	n := 220
+	if c.Thorough() {
+		n = 3000
+	}
+	for i := 0; i < n; i++ {
+		p := c.R.Range(2, 16)
+		w, h := c.R.Range(1, 7), c.R.Range(1, 7)
+		nc := c.R.Pick([]int{1, 1, 3})
+		codec := c.R.Intn(9)
+		if i < 18 {
+			codec = i % 9
+		}
+		im := c02Content(c.R, w, h, nc, p, c02Classes[c.R.Intn(len(c02Classes))])
+		pix := im.pixels()
+		// argument variations: short buffer, bad components / precision / predictor / zero size
+		aw, ah, anc, ap, apred := w, h, nc, p, codec
+		switch c.R.Intn(12) {
+		case 0:
+			if len(pix) > 0 {
+				pix = pix[:c.R.Intn(len(pix))]
+			}
+		case 1:
+			anc = c.R.Pick([]int{0, 2, 4})
+		case 2:
+			ap = c.R.Pick([]int{0, 1, 17})
+		case 3:
+			apred = c.R.Pick([]int{8, 9})
+		case 4:
+			aw = 0
+		}
+		var enc []byte
+		var oc string
+		if codec == 8 {
+			enc, oc = c02Encode(8, pix, aw, ah, anc, ap)
+		} else { // lossless.Encode with the raw predictor argument (8, 9 are invalid, not SV1)
+			var err error
+			pan, msg := hx.Guard(func() { enc, err = lossless.Encode(pix, aw, ah, anc, ap, apred) })
+			oc = "ok"
+			if pan {
+				oc = "panic " + msg
+			} else if err != nil {
+				oc = "err " + err.Error()
+			}
+		}
+		real := "err"
+		if oc == "ok" {
+			real = "ok " + hx.Hex(enc)
+		} else if oc[:3] == "pan" {
+			real = "panic"
+		}
+		if codec == 8 {
+			c.Case(fmt.Sprintf("sv1-stream-enc %d %d %d %d %s", aw, ah, anc, ap, hx.Hex(pix)), real)
+		} else {
+			c.Case(fmt.Sprintf("jll-stream-enc %d %d %d %d %d %s", aw, ah, anc, ap, apred, hx.Hex(pix)), real)
+		}
+		c.Count("stream-enc:" + real[:2])
+		if oc != "ok" {
+			continue
+		}
+		// decode: own stream, by both decoders (SV1 refuses predictor != 1), and damaged variants
+		decLine(codec == 8, enc)
+		if c.R.Intn(4) == 0 {
+			decLine(codec != 8, enc)
+		}
+		for k := 0; k < 2; k++ {
+			m := append([]byte{}, enc...)
+			switch c.R.Intn(6) {
+			case 0:
+				m = m[:c.R.Intn(len(m))]
+			case 1:
+				m[c.R.Intn(len(m))] = byte(c.R.U64())
+			case 2: // header byte
+				m[c.R.Intn(min(len(m), 60))] = byte(c.R.U64())
+			case 3: // insert fill bytes / an extra segment before a marker
+				k := bytes.Index(m, []byte{0xFF, 0xC3})
+				if k > 0 {
+					ins := [][]byte{{0xFF}, {0xFF, 0xFE, 0, 4, 1, 2}, {0xFF, 0xD0}, {0xFF, 0xDD, 0, 4, 0, 0}}[c.R.Intn(4)]
+					m = append(append(append([]byte{}, m[:k]...), ins...), m[k:]...)
+				}
+			case 4: // bit flip
+				m[c.R.Intn(len(m))] ^= byte(1 << uint(c.R.Intn(8)))
+			case 5: // drop EOI / append garbage
+				if c.R.Bool() {
+					m = m[:len(m)-2]
+				} else {
+					m = append(m, 0xFF, 0x00, 0x12)
+				}
+			}
+			decLine(codec == 8, m)
+		}
+		// foreign conformant stream of the same image (reference encoder, random configuration)
+		if c.R.Intn(2) == 0 {
+			pred := c.R.Range(1, 7)
+			sv1 := c.R.Intn(3) == 0
+			if sv1 {
+				pred = 1
+			}
+			decLine(sv1, c13RefEncode(im, c13RandomCfg(c, im, pred, c.R.Intn(3))))
 		}
 	}
 }
